@@ -61,7 +61,11 @@ def main():
         else:
             back = c.from_dict(o.to_dict())
         diffs = []
-        nequal(o, back, c, req["cls"].rsplit(".", 1)[1], diffs)
+        root = req["cls"].rsplit(".", 1)[1]
+        nequal(o, back, c, root, diffs)
+        if req.get("field"):
+            pre = f"{root}.{req['field']}"
+            diffs = [d for d in diffs if d.startswith(pre + ":") or d.startswith(pre + ".") or d.startswith(pre + "[")]
         out = {"confirmed": bool(diffs), "diffs": diffs[:8], "input": repr(o)[:600], "output": repr(back)[:600]}
     except Exception as e:
         out = {"confirmed": True, "diffs": [f"round trip raised {e!r}"], "input": repr(o)[:600]}
